@@ -629,7 +629,7 @@ pub fn sort_full_documents(ctx: &Ctx, tier: Tier) -> u64 {
                 for (_, e) in walk(m) {
                     let names: Vec<ElementName> = e.sub_elements().map(|c| c.element_name()).collect();
                     if names.len() > 1 && !crate::props::c07::valid_children(e.element_type(), *v, &names) {
-                        out.push(format!("{} [{}]", e.xml_path(), names.iter().map(|n| n.to_str()).collect::<Vec<_>>().join(", ")));
+                        out.push(format!("{} at {} [{}]", e.element_name(), e.xml_path(), names.iter().map(|n| n.to_str()).collect::<Vec<_>>().join(", ")));
                     }
                 }
                 out
@@ -646,7 +646,7 @@ pub fn sort_full_documents(ctx: &Ctx, tier: Tier) -> u64 {
             }
             let after = order_problems(&m);
             if let Some(first) = after.first() {
-                let parent_kind = first.rsplit('/').next().unwrap_or("").split(' ').next().unwrap_or("").to_string();
+                let parent_kind = first.split(' ').next().unwrap_or("").to_string();
                 ctx.violation(
                     format!("full-document|children-not-in-specification-order-after-sort|{parent_kind}"),
                     json!({"kind": "sort-full", "version": format!("{v:?}"), "parents_out_of_order": after.len(), "first": first}),
